@@ -234,7 +234,7 @@ func decodeScalar(data []byte, oid int) interface{} {
 		return pgEpoch.AddDate(0, 0, int(days)).Format("2006-01-02")
 	case OidTime:
 		us := i64(data, 0)
-		return fmt.Sprintf("%02d:%02d:%02d", us/3600e6, (us/60e6)%60, (us/1e6)%60)
+		return fmt.Sprintf("%02d:%02d:%02d%s", us/3600e6, (us/60e6)%60, (us/1e6)%60, fracSeconds(us%1e6))
 	case OidTimeTZ:
 		us := i64(data, 0)
 		tz := i32(data, 8) // timezone offset in seconds
@@ -251,7 +251,7 @@ func decodeScalar(data []byte, oid int) interface{} {
 				zone += fmt.Sprintf(":%02d", east%60)
 			}
 		}
-		return fmt.Sprintf("%02d:%02d:%02d%s", us/3600e6, (us/60e6)%60, (us/1e6)%60, zone)
+		return fmt.Sprintf("%02d:%02d:%02d%s%s", us/3600e6, (us/60e6)%60, (us/1e6)%60, fracSeconds(us%1e6), zone)
 	case OidTimestamp, OidTimestampTZ:
 		us := i64(data, 0)
 		if us == math.MaxInt64 {
@@ -262,11 +262,11 @@ func decodeScalar(data []byte, oid int) interface{} {
 		}
 		// whole seconds (floor) added to the epoch: time.Duration(us)*time.Microsecond
 		// overflows int64 nanoseconds beyond +/-292 years
-		sec := us / 1000000
-		if us%1000000 < 0 {
-			sec--
+		sec, frac := us/1000000, us%1000000
+		if frac < 0 {
+			sec, frac = sec-1, frac+1000000
 		}
-		return time.Unix(pgEpoch.Unix()+sec, 0).UTC().Format("2006-01-02 15:04:05")
+		return time.Unix(pgEpoch.Unix()+sec, 0).UTC().Format("2006-01-02 15:04:05") + fracSeconds(frac)
 	case OidInterval:
 		return decodeInterval(data)
 
@@ -528,6 +528,18 @@ func decodeNumericRange(data []byte, flags byte) string {
 	return result.String()
 }
 
+// fracSeconds prints the microseconds within a second (|f| < 1000000) the way PostgreSQL does:
+// nothing when zero, else "." and six digits without the trailing zeros
+func fracSeconds(f int64) string {
+	if f < 0 {
+		f = -f
+	}
+	if f == 0 {
+		return ""
+	}
+	return strings.TrimRight(fmt.Sprintf(".%06d", f), "0")
+}
+
 func decodeInterval(data []byte) string {
 	if len(data) < 16 {
 		return "0"
@@ -549,8 +561,13 @@ func decodeInterval(data []byte) string {
 	if m := (us / 60e6) % 60; m != 0 {
 		parts = append(parts, fmt.Sprintf("%dm", m))
 	}
-	if s := (us / 1e6) % 60; s != 0 {
-		parts = append(parts, fmt.Sprintf("%ds", s))
+	if s, f := (us/1e6)%60, us%1e6; s != 0 || f != 0 {
+		// seconds with their fraction; both carry the sign of us
+		sign := ""
+		if us < 0 {
+			sign, s, f = "-", -s, -f
+		}
+		parts = append(parts, fmt.Sprintf("%s%d%ss", sign, s, fracSeconds(f)))
 	}
 	if len(parts) == 0 {
 		return "0"
